@@ -225,6 +225,16 @@ func init() {
 							}
 						}
 					}
+					// in bounds: a tag whose Parse demands an exact length (counted in characters, sliced in bytes) must not be
+					// accepted from a segment whose byte length differs - its elements were shifted and trailing bytes never examined
+					if v == "ok" {
+						for _, seg := range splitSegments(text) {
+							if n, ok := exactLenTags[seg[:6]]; ok && len(seg) != n {
+								v = fmt.Sprintf("exact-length tag %s accepted from a %d-byte segment (it reads exactly %d bytes): elements shifted, trailing bytes never examined", seg[:6], len(seg), n)
+								break
+							}
+						}
+					}
 					if v == "ok" {
 						o.Case("prop:accepted-valid", "same", text, optsArg(opts))
 					} else {
@@ -409,6 +419,21 @@ func init() {
 				rec(strings.Repeat("B", n)+base, 0, nil, io.EOF, "nil", nil)
 			}
 		}
+		// exact-length tags holding a multi-byte blank: the character count is right, the byte positions are not
+		if base != "" {
+			for _, c := range []struct{ from, to string }{
+				{"{1520}20190410Source08000001", "{1520}20190410Source08000\xe3\x80\x80XY"},
+				{"{1520}20190410Source08000001", "{1520}20190410Source08000\xc2\xa01"},
+				{"{1520}20190410Source08000001", "{1520}20190410Source\xe3\x80\x80000001XY"},
+				{"{1510}1000", "{1510}10\xe3\x80\x8000"},
+				{"{1510}1000", "{1510}100\xc2\xa00"},
+				{"{2000}000001234567", "{2000}00000123456\xe3\x80\x8099"},
+			} {
+				if strings.Contains(base, c.from) {
+					rec(strings.Replace(base, c.from, c.to, 1), 0, nil, io.EOF, "nil", nil)
+				}
+			}
+		}
 		// C04 far into a long stream: a valid message followed by many repeats of one of its own segments and then a
 		// tail the reader must refuse (a marker outside FAIM, a known tag too short to parse) - however far in the tail is
 		if segs := splitSegments(base); len(segs) > 3 {
@@ -464,3 +489,6 @@ func isDigits(s string) bool {
 	}
 	return true
 }
+
+// tags whose Parse compares the character count of the segment with one exact length
+var exactLenTags = map[string]int{"{1510}": 10, "{1520}": 28, "{2000}": 18, "{8650}": 14}
